@@ -255,8 +255,10 @@ class Rig:
         s = self.conns[conn]
         k = o[0]
         server = self.kind.endswith('server')
-        if k == 'w':
-            data = payload_bytes(o[1])
+        if k in ('w', 's'):
+            data = op_object(o)
+            if k == 's' and self.kind != 'file':
+                raise ValueError('text payloads exist for File only')
             if server:
                 self.m.fire(net_write(s, data), 'ep')
             elif self.kind == 'file':
@@ -289,7 +291,9 @@ class Rig:
                 bufs = self.ep._buffers
                 buf = list(bufs[s]) if s in bufs else []
                 return [b''.join(bytes(x) for x in buf), s in self.ep._closeq]
-            return [b''.join(bytes(x) for x in self.ep._buffer), bool(self.ep._closeflag)]
+            enc = getattr(self.ep, '_encoding', None) or 'utf-8'
+            return [b''.join(x.encode(enc) if isinstance(x, str) else bytes(x) for x in self.ep._buffer),
+                    bool(self.ep._closeflag)]
         except Exception:
             return None
 
@@ -318,6 +322,32 @@ def payload_bytes(p):
 
 def payload_len(p):
     return sum(n for _, n in p)
+
+
+# write ops:  ['w', runs, conn]            bytes payload
+#             ['w', runs, conn, typ]       typ in bytearray / memoryview: the same bytes in another bytes-like object
+#             ['s', text, conn]            File only: a str payload; what has to reach the OS is its encoding
+#                                          (File._encoding; the double's file object says utf-8)
+def is_write(o):
+    return o[0] in ('w', 's')
+
+
+def op_bytes(o):
+    """the bytes a write op asks the endpoint to hand to the OS"""
+    return o[1].encode('utf-8') if o[0] == 's' else payload_bytes(o[1])
+
+
+def op_type(o):
+    return 'str' if o[0] == 's' else (o[3] if len(o) > 3 and o[3] else 'bytes')
+
+
+def op_object(o):
+    """the python object passed in the write event"""
+    if o[0] == 's':
+        return o[1]
+    b = payload_bytes(o[1])
+    t = op_type(o)
+    return bytearray(b) if t == 'bytearray' else memoryview(b) if t == 'memoryview' else b
 
 
 _RUN = re.compile(rb'(.)\1*', re.S)
@@ -417,8 +447,8 @@ def pack(runs):
 
 
 def coq_op(o):
-    if o[0] == 'w':
-        return 'Write %s' % coq_runs(o[1])
+    if is_write(o):      # a File str payload is, for the model, its encoded byte string
+        return 'Write %s' % coq_runs(o[1] if o[0] == 'w' else rle_fast(op_bytes(o)))
     if o[0] in ('c', 'C'):
         return 'Close'
     oc = o[1]
@@ -454,7 +484,7 @@ class C11(Prop):
                    'the model stops at the close: after the descriptor was closed only "no byte is accepted" is compared']
 
     def __init__(self):
-        self.stats = {'kinds': {}, 'ops': {}, 'outcomes': {}, 'payload_sizes': {}, 'close_positions': {},
+        self.stats = {'kinds': {}, 'ops': {}, 'outcomes': {}, 'payload_sizes': {}, 'payload_types': {}, 'close_positions': {},
                       'fatal_cases': 0, 'two_conn_cases': 0, 'max_payload': 0}
 
     # ---- generator
@@ -483,11 +513,42 @@ class C11(Prop):
         ctr[0] += 1
         return [[ctr[0] % 251, rng.choice([8192, 65536, 100000])]]
 
-    def _stream(self, rng, ctr, conn, big=False):
+    TEXT = ['a', 'b', 'z', '0', '\u00e9', '\u00df', '\u0416', '\u20ac', '\u4e2d', '\u2603', '\U0001f600', '\U0001d11e']
+
+    def _text(self, rng):
+        r = rng.random()
+        if r < 0.08:
+            return ''
+        if r < 0.2:      # ASCII only
+            return ''.join(rng.choice('abcxyz019 ') for _ in range(rng.randint(1, 8)))
+        if r < 0.9:
+            return ''.join(rng.choice(self.TEXT) for _ in range(rng.randint(1, 7)))
+        unit = ''.join(rng.choice(self.TEXT[4:]) for _ in range(rng.randint(1, 3)))
+        return unit * rng.choice([50, 700, 1366, 2000])
+
+    def _write_op(self, rng, ctr, conn, kind, big=False):
+        if kind == 'file' and not big and rng.random() < self._text_share:
+            return ['s', self._text(rng), conn]
+        o = ['w', self._payload(rng, ctr, big), conn]
+        if not big and rng.random() < 0.08:
+            o.append(rng.choice(['bytearray', 'memoryview']))
+        return o
+
+    def _stream(self, rng, ctr, conn, big=False, kind=None):
         """ops of one connection"""
         nw = rng.choice([0, 1, 1, 2, 2, 3, 3, 4, 5, 6]) if not big else rng.randint(1, 2)
-        pls = [self._payload(rng, ctr, big and i == 0) for i in range(nw)]
-        lens = [payload_len(p) for p in pls] or [1]
+        self._text_share = rng.choice([0.0, 0.5, 1.0])
+        wops = [self._write_op(rng, ctr, conn, kind, big and i == 0) for i in range(nw)]
+        lens = [len(op_bytes(o)) for o in wops] or [1]
+        cuts = []      # byte offsets just before / inside / just after the multi-byte characters of text payloads
+        for o in wops:
+            if o[0] == 's':
+                off = 0
+                for ch in o[1][:40]:
+                    n = len(ch.encode('utf-8'))
+                    if n > 1:
+                        cuts += [off, off + 1, off + n - 1, off + n]
+                    off += n
         faulty = rng.random() < 0.75
         fatal = rng.random() < 0.3
 
@@ -495,6 +556,8 @@ class C11(Prop):
             r = rng.random()
             if not faulty or r < 0.35:
                 return ['a', BIG]
+            if cuts and r < 0.6:
+                return ['a', rng.choice(cuts)]
             if r < 0.75:
                 L = rng.choice(lens)
                 return ['a', max(0, rng.choice([0, 1, L - 1, L, L + 1, L // 2, rng.randint(0, L + 1)]))]
@@ -503,10 +566,10 @@ class C11(Prop):
             return ['e', rng.choice([errno.EAGAIN, errno.EWOULDBLOCK, errno.EINTR, errno.ENOBUFS])]
 
         ops = []
-        for p in pls:
+        for o in wops:
             for _ in range(rng.choice([0, 0, 0, 1, 1, 2, 3] if not big else [0, 1, 2])):
                 ops.append(['t', outcome(), conn])
-            ops.append(['w', p, conn])
+            ops.append(o)
         for _ in range(rng.choice([0, 1, 2, 3, 5] if not big else [1, 2, 3])):
             ops.append(['t', outcome(), conn])
         # close request(s) at random positions
@@ -516,10 +579,10 @@ class C11(Prop):
             ops.insert(rng.randint(0, len(ops)), ['c', None, conn])
         # late writes / ticks
         if rng.random() < 0.3:
-            ops.append(['w', self._payload(rng, ctr), conn])
+            ops.append(self._write_op(rng, ctr, conn, kind))
             ops.append(['t', outcome(), conn])
         if rng.random() < 0.8:
-            nwr = len([o for o in ops if o[0] == 'w'])
+            nwr = len([o for o in ops if is_write(o)])
             ops += [['t', ['a', BIG], conn] for _ in range(nwr + 1)]
         return ops
 
@@ -536,14 +599,14 @@ class C11(Prop):
                 kind = ['tcpclient', 'file', 'tcpserver', 'unixclient'][i % 4]
                 server = kind.endswith('server')
             if server and not big and rng.random() < 0.4:
-                a, b = self._stream(rng, ctr, 0), self._stream(rng, ctr, 1)
+                a, b = self._stream(rng, ctr, 0, False, kind), self._stream(rng, ctr, 1, False, kind)
                 ops = []
                 while a or b:
                     src = a if (a and (not b or rng.random() < 0.5)) else b
                     ops.append(src.pop(0))
                 nconn = 2
             else:
-                ops = self._stream(rng, ctr, 0, big)
+                ops = self._stream(rng, ctr, 0, big, kind)
                 nconn = 1
             if server and rng.random() < 0.15:
                 cl = [j for j, o in enumerate(ops) if o[0] == 'c']
@@ -571,8 +634,13 @@ class C11(Prop):
                     key = errno.errorcode.get(oc[1], str(oc[1]))
                     fatal = fatal or oc[1] not in TRANSIENT
                 st['outcomes'][key] = st['outcomes'].get(key, 0) + 1
-            elif o[0] == 'w':
-                L = payload_len(o[1])
+            elif is_write(o):
+                L = len(op_bytes(o)) if o[0] == 's' else payload_len(o[1])
+                t = op_type(o)
+                if t == 'str':
+                    bs = op_bytes(o)
+                    t = 'str-ascii' if len(bs) == len(o[1]) else 'str-multibyte'
+                st['payload_types'][t] = st['payload_types'].get(t, 0) + 1
                 b = '0' if L == 0 else '1-8' if L <= 8 else '9-4096' if L <= 4096 else '4097-65535' if L < 65536 else '64K-1M' if L < (1 << 20) else '>=1M'
                 st['payload_sizes'][b] = st['payload_sizes'].get(b, 0) + 1
                 st['max_payload'] = max(st['max_payload'], L)
@@ -589,7 +657,19 @@ class C11(Prop):
         # read: after a rename the observable degrades instead of raising an alarm
         if any(r['int'] is None for r in obs['recs']):
             c['_noint'] = True
+        # open finding C11-file-bytes-like: while File raises on bytearray/memoryview payloads the model (which treats
+        # every bytes-like payload as its bytes) is not compared on those cases
+        if self._bytes_like_defect(c, obs):
+            c['_nomodel'] = True
         return obs
+
+    @staticmethod
+    def _bytes_like_defect(c, obs):
+        if c['kind'] != 'file' or not isinstance(obs, dict) or 'recs' not in obs:
+            return False
+        if not any(o[0] == 'w' and op_type(o) in ('bytearray', 'memoryview') for o in c['ops']):
+            return False
+        return any(r['exc'] and not r['was_closed'] for r in obs['recs'])
 
     # ---- model
     def _conns(self, c):
@@ -597,6 +677,8 @@ class C11(Prop):
         return (c.get('nconn', 1) if server else 1), server
 
     def model_term(self, c):
+        if c.get('_nomodel'):
+            return None
         nconn, server = self._conns(c)
         parts = []
         for conn in range(nconn):
@@ -646,7 +728,7 @@ class C11(Prop):
         for r in obs['recs']:
             if r['other']:
                 return 'an operation on one connection touched another one: %s' % r['other'][0]
-        w_all = b''.join(payload_bytes(ops[j][1]) for j in mine if ops[j][0] == 'w')
+        w_all = b''.join(op_bytes(ops[j]) for j in mine if is_write(ops[j]))
         acc = 0                 # number of bytes the OS accepted so far
         w_open = 0              # number of bytes written while the descriptor was open
         closed = fatal = requested = False
@@ -656,8 +738,8 @@ class C11(Prop):
                 return 'no record for op %d' % j
             if r['exc'] and not closed:
                 return 'op %d %s: a handler of the endpoint raised' % (j, o[0])
-            if o[0] == 'w' and not closed:
-                w_open += payload_len(o[1])
+            if is_write(o) and not closed:
+                w_open += len(op_bytes(o))
             if o[0] in ('c', 'C') and not closed:
                 requested = True
             this_fatal = False
@@ -685,7 +767,7 @@ class C11(Prop):
                     if acc != w_open:
                         return 'op %d: close took effect with %d of %d written bytes handed to the OS' % (j, acc, w_open)
         # liveness: the case ends with enough all-accepting writability events to drain any buffer
-        nw = len([j for j in mine if ops[j][0] == 'w'])
+        nw = len([j for j in mine if is_write(ops[j])])
         t = 0
         for j in reversed(mine):
             if is_full_tick(ops[j]):
@@ -701,11 +783,14 @@ class C11(Prop):
         return None
 
     def finding_class(self, c, obs, what):
+        # C11-file-bytes-like: File, a bytearray/memoryview payload, and a handler of the endpoint raised before the close
+        if self._bytes_like_defect(c, obs) and 'a handler of the endpoint raised' in (what or ''):
+            return 'C11-file-bytes-like'
         return None
 
     def nontrivial(self, c, obs):
         ops = c['ops']
-        if not any(o[0] == 'w' for o in ops):
+        if not any(is_write(o) for o in ops):
             return False
         if any(o[0] == 't' and (o[1][0] == 'e' or o[1][1] < BIG) for o in ops):
             return True
